@@ -14,6 +14,7 @@ from vlib import xh
 from vlib.common import REPO
 
 LAST_FAILURE = None
+THOROUGH = os.environ.get("VERIF_TIER", "quick") == "thorough"
 
 TEXTS = [
     "namespace gt { class Pose { Pose(); void serialize() const; }; }",
@@ -21,6 +22,8 @@ TEXTS = [
     "namespace gt { template<A = {int}, B = {double}> class Pair { Pair(); void serialize() const; }; class Plain { Plain(); }; }",
     "class Glob { Glob(); void serialize() const; void f(int a = 1) const; }; double g(double x);",
     "namespace other { class Pose { Pose(); void serialize() const; }; enum E { X }; }",
+    "namespace camera { class Params { Params(); enum Kind { A, B }; camera::Params::Kind kind() const; }; }",
+    "namespace solver { class Params { Params(); enum Mode { X }; }; class PARAMS { PARAMS(); enum Mode { Y }; }; }",
 ]
 NT = len(TEXTS)
 
@@ -45,7 +48,7 @@ def c14_history(a: int, b: int, c: int, boost: int, depth: int) -> bool:
     """
     depth, b, boost = pick(depth, 0, 3), pick(b, 0, NT), pick(boost, 0, 2)
     a = pick(a, 0, NT) if depth >= 1 else 0          # indices of earlier calls are only enumerated when those calls happen
-    c = pick(c, 0, NT) if depth >= 2 else 0
+    c = (pick(c, 0, NT) if THOROUGH else (a + 2 * b + 1) % NT) if depth >= 2 else 0          # quick: the first of two earlier texts is derived
     with concrete():
         w = mkw(boost)
         if depth >= 2:
@@ -603,7 +606,7 @@ def conds(tier):
     sb = "shape-bounded"
     return [
         xh.Cond(M, "c14_history", t(300, 1500), kind=sb, examples=["a=0, b=0, c=0, boost=1, depth=1", "a=1, b=0, c=4, boost=1, depth=2"],
-                bounds="%d-text pool, 0-2 earlier wrap_file calls, both serialization settings" % NT),
+                bounds="%d-text pool, 0-2 earlier wrap_file calls%s, both serialization settings" % (NT, "" if not q else " (with two, the first is derived)")),
         xh.Cond(M, "c14_xml_memory", t(120, 600), kind=sb, examples=["times=2, nover=1, extra=0", "times=2, nover=2, extra=0", "times=3, nover=1, extra=1", "times=2, nover=2, extra=1"], bounds="1-3 repeated runs x 1-3 wrapped overloads with identical parameter names x 0-2 further documented ones"),
         xh.Cond(M, "c14_footprint", t(200, 900), kind=sb, examples=["which=0, boost=1, nfiles=3", "which=2, boost=0, nfiles=2"], bounds="3 entry points x serialization x 1-3 source files"),
         xh.Cond(M, "c14_source_order", t(120, 600), kind=sb, examples=["perm=0, boost=0", "perm=5, boost=1"], bounds="6 permutations of 3 additional files x serialization"),
